@@ -148,7 +148,10 @@ def main():
                 ck.nontrivial('s' + s)
 
     # ---------------- stream C: end to end: default arguments in generated code ------------------------------------
-    consts = ['0.5', '0.25', '2.0', '1e10', '1.5e3', '100.0', '0.125', '3.0', '65536.0', '1e-2', '0.1', '0.3', '1e23', '123.456']
+    consts = ['0.5', '0.25', '2.0', '1e10', '1.5e3', '100.0', '0.125', '3.0', '65536.0', '1e-2', '0.1', '0.3', '1e23', '123.456', '1.0', '4.0', '6e0', '5e3', '1e4', '625.0', '1e100', '25e103']
+    # which of them the literal parser itself gets right (then a wrong value in the generated code has another cause)
+    pp = subprocess.run([tool], input=''.join('s %s\n' % c for c in consts), text=True, stdout=subprocess.PIPE, timeout=300).stdout.splitlines()
+    parser_right = {c: (int(g, 16) == bits_of(float(c))) for c, g in zip(consts, pp)}
     src = '#ifndef CPPPARSER\n#define __published public\n#endif\nclass Lit {\n__published:\n' + \
         ''.join('  double f%d(double x = %s);\n' % (i, c) for i, c in enumerate(consts)) + '};\n'
     open(os.path.join(wd, 'lit.h'), 'w').write(src)
@@ -167,7 +170,9 @@ def main():
         except ValueError:
             same = False
         rp = {'kind': 'spec', 'header': src, 'cmd': 'interrogate -DCPPPARSER -c -fnames -oc h.cxx -od h.in -module m -library l h.h', 'literal': c, 'printed_in_generated_code': printed}
-        if not same:
+        if not same and parser_right.get(c):
+            ck.spec_failure('end-to-end:default-value-changed', 'literal %s (parsed exactly by pstrtod) appears as %s in the generated code: another double' % (c, printed), rp)
+        elif not same:
             ck.spec_failure('pstrtod:not-correctly-rounded', 'literal %s appears as %s in the generated code: another double' % (c, printed), rp)
         else:
             ck.nontrivial('lit' + c)
